@@ -498,7 +498,10 @@ func (app *App) stateManager() appState {
 				return stateManager
 			}
 			err = app.performSwitchover(clusterState, activeNodes, switchover, master)
-			if errors.Is(app.GetCurrentSwitchover(new(Switchover)), dcs.ErrNotFound) {
+			current := new(Switchover)
+			getErr := app.GetCurrentSwitchover(current)
+			// the request is gone, or was aborted and replaced by another one meanwhile
+			if errors.Is(getErr, dcs.ErrNotFound) || (getErr == nil && !isSameSwitchover(current, switchover)) {
 				app.logger.Error().Msgf("switchover was aborted")
 			} else {
 				if err != nil {
@@ -613,6 +616,12 @@ func (app *App) stateManager() appState {
 	}
 
 	return stateManager
+}
+
+// isSameSwitchover tells whether a and b are the same request (and not a new one
+// filed after the old one was aborted)
+func isSameSwitchover(a, b *Switchover) bool {
+	return a.InitiatedBy == b.InitiatedBy && a.InitiatedAt.Equal(b.InitiatedAt)
 }
 
 func (app *App) checkMasterVisible(clusterStateFromDB, clusterStateDcs map[string]*nodestate.NodeState) (bool, error) {
